@@ -534,6 +534,20 @@ async def _fetch_with_probe(
             # origin that rejected the probe still names its encoding here.
             content_encoding = resp.headers.get("Content-Encoding", "") or content_encoding
             data = await _read_response_body(resp, config)
+            # A body delimited only by the end of the connection cannot say
+            # that it was cut short: a connection lost half way reads like a
+            # complete response.  The probe's size is the one thing to check
+            # such a body against.
+            if (
+                content_length is not None
+                and resp.headers.get("Content-Length") is None
+                and "chunked" not in resp.headers.get("Transfer-Encoding", "").lower()
+                and len(data) != content_length
+            ):
+                raise RuntimeError(
+                    f"ExternalLocation fetch incomplete: read {len(data)} bytes of a response without length framing, "
+                    f"probe reported {content_length} from {redact_url(url)}"
+                )
 
     # Decompress if the server names a codec we know.  The explicit decoded
     # cap defaults to 16 * max_fetch_bytes so a small, highly compressible
